@@ -1,1 +1,993 @@
-fn main() { eprintln!("engine not built yet"); std::process::exit(2); }
+//! C08 — Reader results depend only on the bytes, not on how they are delivered.
+//!
+//! Every execution = (input bytes, script of reader calls, delivery plan).  The harness's `Read` object
+//! owns every environment answer: how many bytes each `read` call returns, and where a transient
+//! `ErrorKind::Interrupted` is injected.  Default answer = "fill the buffer offered"; a short read or an
+//! `Interrupted` is a deviation.  Short inputs: ALL 2^(L-1) chunkings (and all placements of up to two
+//! `Interrupted`); long inputs (extreme values, tuples, inputs as long as the internal buffer): all
+//! placements of up to two deviations.  Oracle: the values returned equal those of an independent
+//! reference parser applied to the whole byte string, for every delivery.
+
+use rayon::prelude::*;
+use rlib_io::Reader;
+use std::cell::Cell;
+use std::io::Read;
+use vcore::*;
+
+// ---------------------------------------------------------------------------------------------
+// scripts
+
+#[derive(Clone, Copy, Debug, PartialEq, Eq, Hash, PartialOrd, Ord)]
+enum Ty {
+    I8,
+    U8,
+    I16,
+    U16,
+    I32,
+    U32,
+    I64,
+    U64,
+    I128,
+    U128,
+    Isize,
+    Usize,
+    Str,
+    Char,
+}
+
+const INT_TYS: [Ty; 12] = [Ty::I8, Ty::U8, Ty::I16, Ty::U16, Ty::I32, Ty::U32, Ty::I64, Ty::U64, Ty::I128, Ty::U128, Ty::Isize, Ty::Usize];
+
+impl Ty {
+    fn name(self) -> &'static str {
+        match self {
+            Ty::I8 => "i8",
+            Ty::U8 => "u8",
+            Ty::I16 => "i16",
+            Ty::U16 => "u16",
+            Ty::I32 => "i32",
+            Ty::U32 => "u32",
+            Ty::I64 => "i64",
+            Ty::U64 => "u64",
+            Ty::I128 => "i128",
+            Ty::U128 => "u128",
+            Ty::Isize => "isize",
+            Ty::Usize => "usize",
+            Ty::Str => "String",
+            Ty::Char => "char",
+        }
+    }
+    fn from_name(s: &str) -> Ty {
+        *INT_TYS.iter().chain([Ty::Str, Ty::Char].iter()).find(|t| t.name() == s).unwrap()
+    }
+    /// (min, max) as i128 / u128 range of an integer type, None for u128 upper part handled separately
+    fn fits(self, neg: bool, mag: u128) -> bool {
+        let (min_mag, max): (u128, u128) = match self {
+            Ty::I8 => (1 << 7, (1 << 7) - 1),
+            Ty::U8 => (0, u8::MAX as u128),
+            Ty::I16 => (1 << 15, (1 << 15) - 1),
+            Ty::U16 => (0, u16::MAX as u128),
+            Ty::I32 => (1 << 31, (1 << 31) - 1),
+            Ty::U32 => (0, u32::MAX as u128),
+            Ty::I64 | Ty::Isize => (1 << 63, (1 << 63) - 1),
+            Ty::U64 | Ty::Usize => (0, u64::MAX as u128),
+            Ty::I128 => (1 << 127, (1 << 127) - 1),
+            Ty::U128 => (0, u128::MAX),
+            _ => return false,
+        };
+        if neg {
+            // "-0" is a valid spelling of zero for signed types only
+            min_mag > 0 && mag <= min_mag
+        } else {
+            mag <= max
+        }
+    }
+}
+
+#[derive(Clone, Debug, PartialEq, Eq, Hash, PartialOrd, Ord)]
+enum Op {
+    Tok(Ty),
+    Line,
+    Lines,
+    Eof,
+    Vec(Ty, usize),
+    Tup(Vec<Ty>),
+}
+
+fn op_to_json(o: &Op) -> Value {
+    match o {
+        Op::Tok(t) => json!({"read": t.name()}),
+        Op::Line => json!("read_line"),
+        Op::Lines => json!("read_lines"),
+        Op::Eof => json!("is_eof"),
+        Op::Vec(t, n) => json!({"read_vec": t.name(), "n": n}),
+        Op::Tup(ts) => json!({"read_tuple": ts.iter().map(|t| t.name()).collect::<Vec<_>>()}),
+    }
+}
+
+fn op_from_json(v: &Value) -> Op {
+    if v == "read_line" {
+        Op::Line
+    } else if v == "read_lines" {
+        Op::Lines
+    } else if v == "is_eof" {
+        Op::Eof
+    } else if let Some(t) = v.get("read") {
+        Op::Tok(Ty::from_name(t.as_str().unwrap()))
+    } else if let Some(t) = v.get("read_vec") {
+        Op::Vec(Ty::from_name(t.as_str().unwrap()), v["n"].as_u64().unwrap() as usize)
+    } else {
+        Op::Tup(v["read_tuple"].as_array().unwrap().iter().map(|t| Ty::from_name(t.as_str().unwrap())).collect())
+    }
+}
+
+// ---------------------------------------------------------------------------------------------
+// reference parser: the whole byte string, a cursor, nothing else
+
+fn is_ws(b: u8) -> bool {
+    matches!(b, b' ' | b'\t' | b'\n' | b'\x0c' | b'\r')
+}
+
+struct RefP<'a> {
+    s: &'a [u8],
+    p: usize,
+}
+
+impl<'a> RefP<'a> {
+    fn skip(&mut self) {
+        while self.p < self.s.len() && is_ws(self.s[self.p]) {
+            self.p += 1;
+        }
+    }
+    fn token(&mut self) -> Option<&'a [u8]> {
+        self.skip();
+        if self.p == self.s.len() {
+            return None;
+        }
+        let st = self.p;
+        while self.p < self.s.len() && !is_ws(self.s[self.p]) {
+            self.p += 1;
+        }
+        Some(&self.s[st..self.p])
+    }
+    fn tok(&mut self, ty: Ty) -> Option<String> {
+        match ty {
+            Ty::Str => self.token().map(|t| format!("{:?}", String::from_utf8_lossy(t))),
+            Ty::Char => {
+                self.skip();
+                if self.p == self.s.len() {
+                    return None;
+                }
+                self.p += 1;
+                Some(format!("{:?}", self.s[self.p - 1] as char))
+            }
+            _ => {
+                let t = self.token()?;
+                let (neg, digits) = if t[0] == b'-' { (true, &t[1..]) } else { (false, t) };
+                if digits.is_empty() || digits.len() > 39 || !digits.iter().all(|d| d.is_ascii_digit()) {
+                    return None;
+                }
+                let mut mag: u128 = 0;
+                for d in digits {
+                    mag = mag.checked_mul(10)?.checked_add((d - b'0') as u128)?;
+                }
+                if !ty.fits(neg, mag) {
+                    return None;
+                }
+                Some(if neg && mag != 0 { format!("-{}", mag) } else { format!("{}", mag) })
+            }
+        }
+    }
+    fn line(&mut self) -> Option<String> {
+        if self.p == self.s.len() {
+            return None;
+        }
+        let mut out = vec![];
+        while self.p < self.s.len() {
+            let c = self.s[self.p];
+            self.p += 1;
+            if c == b'\n' {
+                break;
+            }
+            if c == b'\r' && self.p < self.s.len() && self.s[self.p] == b'\n' {
+                self.p += 1;
+                break;
+            }
+            out.push(c);
+        }
+        Some(String::from_utf8_lossy(&out).into_owned())
+    }
+    fn run(&mut self, op: &Op) -> Option<String> {
+        Some(match op {
+            Op::Tok(t) => self.tok(*t)?,
+            Op::Line => format!("{:?}", self.line()),
+            Op::Lines => {
+                let mut v = vec![];
+                while let Some(l) = self.line() {
+                    v.push(l);
+                }
+                format!("{:?}", v)
+            }
+            Op::Eof => {
+                self.skip();
+                format!("{}", self.p == self.s.len())
+            }
+            Op::Vec(t, n) => {
+                let mut v = vec![];
+                for _ in 0..*n {
+                    v.push(self.tok(*t)?);
+                }
+                format!("[{}]", v.join(", "))
+            }
+            Op::Tup(ts) => {
+                let mut v = vec![];
+                for t in ts {
+                    v.push(self.tok(*t)?);
+                }
+                format!("({})", v.join(", "))
+            }
+        })
+    }
+}
+
+/// None = the script asks for something that is not there (outside the property)
+fn reference(input: &[u8], script: &[Op]) -> Option<Vec<String>> {
+    let mut r = RefP { s: input, p: 0 };
+    script.iter().map(|o| r.run(o)).collect()
+}
+
+// ---------------------------------------------------------------------------------------------
+// the environment: a Read object whose every answer is chosen by the harness
+
+#[derive(Clone, Copy, Debug, PartialEq, Eq)]
+enum Step {
+    Give(usize),
+    Interrupted,
+}
+
+struct Src<'a> {
+    data: &'a [u8],
+    pos: usize,
+    plan: &'a [Step],
+    next: usize,
+    calls: &'a Cell<usize>,
+    first_buf: &'a Cell<usize>,
+}
+
+impl Read for Src<'_> {
+    fn read(&mut self, buf: &mut [u8]) -> std::io::Result<usize> {
+        self.calls.set(self.calls.get() + 1);
+        if self.first_buf.get() == 0 {
+            self.first_buf.set(buf.len());
+        }
+        let step = if self.next < self.plan.len() {
+            self.next += 1;
+            self.plan[self.next - 1]
+        } else {
+            Step::Give(usize::MAX) // default: fill the buffer offered
+        };
+        match step {
+            Step::Interrupted => Err(std::io::Error::new(std::io::ErrorKind::Interrupted, "interrupted")),
+            Step::Give(k) => {
+                let n = k.min(buf.len()).min(self.data.len() - self.pos);
+                buf[..n].copy_from_slice(&self.data[self.pos..self.pos + n]);
+                self.pos += n;
+                Ok(n)
+            }
+        }
+    }
+}
+
+fn render_tok(r: &mut Reader, ty: Ty) -> String {
+    match ty {
+        Ty::I8 => r.read::<i8>().to_string(),
+        Ty::U8 => r.read::<u8>().to_string(),
+        Ty::I16 => r.read::<i16>().to_string(),
+        Ty::U16 => r.read::<u16>().to_string(),
+        Ty::I32 => r.read::<i32>().to_string(),
+        Ty::U32 => r.read::<u32>().to_string(),
+        Ty::I64 => r.read::<i64>().to_string(),
+        Ty::U64 => r.read::<u64>().to_string(),
+        Ty::I128 => r.read::<i128>().to_string(),
+        Ty::U128 => r.read::<u128>().to_string(),
+        Ty::Isize => r.read::<isize>().to_string(),
+        Ty::Usize => r.read::<usize>().to_string(),
+        Ty::Str => format!("{:?}", r.read::<String>()),
+        Ty::Char => format!("{:?}", r.read::<char>()),
+    }
+}
+
+fn render_vec(r: &mut Reader, ty: Ty, n: usize) -> String {
+    macro_rules! v {
+        ($t:ty) => {
+            format!("[{}]", r.read_vec::<$t>(n).iter().map(|x| x.to_string()).collect::<Vec<_>>().join(", "))
+        };
+    }
+    match ty {
+        Ty::I8 => v!(i8),
+        Ty::U8 => v!(u8),
+        Ty::I16 => v!(i16),
+        Ty::U16 => v!(u16),
+        Ty::I32 => v!(i32),
+        Ty::U32 => v!(u32),
+        Ty::I64 => v!(i64),
+        Ty::U64 => v!(u64),
+        Ty::I128 => v!(i128),
+        Ty::U128 => v!(u128),
+        Ty::Isize => v!(isize),
+        Ty::Usize => v!(usize),
+        Ty::Str => format!("[{}]", r.read_vec::<String>(n).iter().map(|x| format!("{:?}", x)).collect::<Vec<_>>().join(", ")),
+        Ty::Char => format!("[{}]", r.read_vec::<char>(n).iter().map(|x| format!("{:?}", x)).collect::<Vec<_>>().join(", ")),
+    }
+}
+
+/// Tuples go through the crate's own `Readable for (A, B, …)` impls for the shapes used here.
+fn render_tup(r: &mut Reader, ts: &[Ty]) -> String {
+    use Ty::*;
+    match ts {
+        [I64, I64] => {
+            let (a, b): (i64, i64) = r.read();
+            format!("({}, {})", a, b)
+        }
+        [I32, Str] => {
+            let (a, b): (i32, String) = r.read();
+            format!("({}, {:?})", a, b)
+        }
+        [Str, U8] => {
+            let (a, b): (String, u8) = r.read();
+            format!("({:?}, {})", a, b)
+        }
+        [I8, U64, Str] => {
+            let (a, b, c): (i8, u64, String) = r.read();
+            format!("({}, {}, {:?})", a, b, c)
+        }
+        [I64, I64, I64] => {
+            let (a, b, c): (i64, i64, i64) = r.read();
+            format!("({}, {}, {})", a, b, c)
+        }
+        [U8, I16, U32, I64] => {
+            let (a, b, c, d): (u8, i16, u32, i64) = r.read();
+            format!("({}, {}, {}, {})", a, b, c, d)
+        }
+        [I8, U8, I16, U16, I32] => {
+            let (a, b, c, d, e): (i8, u8, i16, u16, i32) = r.read();
+            format!("({}, {}, {}, {}, {})", a, b, c, d, e)
+        }
+        [I8, U8, I16, U16, I32, U32] => {
+            let (a, b, c, d, e, f): (i8, u8, i16, u16, i32, u32) = r.read();
+            format!("({}, {}, {}, {}, {}, {})", a, b, c, d, e, f)
+        }
+        [I8, U8, I16, U16, I32, U32, I64] => {
+            let (a, b, c, d, e, f, g): (i8, u8, i16, u16, i32, u32, i64) = r.read();
+            format!("({}, {}, {}, {}, {}, {}, {})", a, b, c, d, e, f, g)
+        }
+        [I8, U8, I16, U16, I32, U32, I64, Str] => {
+            let (a, b, c, d, e, f, g, h): (i8, u8, i16, u16, i32, u32, i64, String) = r.read();
+            format!("({}, {}, {}, {}, {}, {}, {}, {:?})", a, b, c, d, e, f, g, h)
+        }
+        _ => panic!("harness: tuple shape {:?} not wired", ts),
+    }
+}
+
+const TUPLE_SHAPES: &[&[Ty]] = &[
+    &[Ty::I64, Ty::I64],
+    &[Ty::I32, Ty::Str],
+    &[Ty::Str, Ty::U8],
+    &[Ty::I8, Ty::U64, Ty::Str],
+    &[Ty::I64, Ty::I64, Ty::I64],
+    &[Ty::U8, Ty::I16, Ty::U32, Ty::I64],
+    &[Ty::I8, Ty::U8, Ty::I16, Ty::U16, Ty::I32],
+    &[Ty::I8, Ty::U8, Ty::I16, Ty::U16, Ty::I32, Ty::U32],
+    &[Ty::I8, Ty::U8, Ty::I16, Ty::U16, Ty::I32, Ty::U32, Ty::I64],
+    &[Ty::I8, Ty::U8, Ty::I16, Ty::U16, Ty::I32, Ty::U32, Ty::I64, Ty::Str],
+];
+
+struct Exec {
+    out: Result<Vec<String>, String>,
+    calls: usize,
+    first_buf: usize,
+}
+
+/// One execution of the REAL reader.
+fn run_real(input: &[u8], plan: &[Step], script: &[Op]) -> Exec {
+    let calls = Cell::new(0);
+    let first_buf = Cell::new(0);
+    let out = catch(|| {
+        let src = Src { data: input, pos: 0, plan, next: 0, calls: &calls, first_buf: &first_buf };
+        let mut r = Reader::new(Box::new(src));
+        let mut res = vec![];
+        for op in script {
+            res.push(match op {
+                Op::Tok(t) => render_tok(&mut r, *t),
+                Op::Line => format!("{:?}", r.read_line()),
+                Op::Lines => format!("{:?}", r.read_lines()),
+                Op::Eof => format!("{}", r.is_eof()),
+                Op::Vec(t, n) => render_vec(&mut r, *t, *n),
+                Op::Tup(ts) => render_tup(&mut r, ts),
+            });
+        }
+        res
+    });
+    Exec { out, calls: calls.get(), first_buf: first_buf.get() }
+}
+
+// ---------------------------------------------------------------------------------------------
+// cases
+
+#[derive(Clone)]
+struct Case {
+    input: Vec<u8>,
+    script: Vec<Op>,
+    /// how deliveries are enumerated for this case
+    mode: Delivery,
+}
+
+#[derive(Clone, Copy, PartialEq)]
+enum Delivery {
+    /// all 2^(L-1) chunkings, plus all placements of <= k Interrupted among the read calls
+    AllChunkings { interrupts: usize },
+    /// <= 2 deviations (cuts anywhere, Interrupted anywhere) from the default fill-the-buffer answer
+    TwoDeviations,
+    /// long input: listed plans only
+    Listed,
+}
+
+fn plan_to_json(p: &[Step]) -> Value {
+    Value::Array(p.iter().map(|s| match s { Step::Give(k) => json!(k), Step::Interrupted => json!("interrupted") }).collect())
+}
+
+fn plan_from_json(v: &Value) -> Vec<Step> {
+    v.as_array().unwrap().iter().map(|s| if s == "interrupted" { Step::Interrupted } else { Step::Give(s.as_u64().unwrap() as usize) }).collect()
+}
+
+/// the chunk lengths of a composition of `len` given by the cut mask
+fn chunks_of(len: usize, mask: u64) -> Vec<Step> {
+    let mut v = vec![];
+    let mut cur = 0;
+    for i in 0..len {
+        cur += 1;
+        if i + 1 == len || (mask >> i) & 1 == 1 {
+            v.push(Step::Give(cur));
+            cur = 0;
+        }
+    }
+    v
+}
+
+/// insert Interrupted before the read calls listed (indices into the call sequence incl. the EOF read)
+fn with_interrupts(base: &[Step], at: &[usize]) -> Vec<Step> {
+    // base has one Give per data-carrying call; the EOF read is the default answer after the plan.
+    let mut out = vec![];
+    let mut pending: Vec<usize> = at.to_vec();
+    pending.sort();
+    for (i, s) in base.iter().enumerate() {
+        for _ in pending.iter().filter(|&&a| a == i) {
+            out.push(Step::Interrupted);
+        }
+        out.push(*s);
+    }
+    for _ in pending.iter().filter(|&&a| a >= base.len()) {
+        out.push(Step::Interrupted);
+    }
+    out
+}
+
+fn plans_for(case: &Case, listed: &[Vec<Step>]) -> Vec<Vec<Step>> {
+    let len = case.input.len();
+    match case.mode {
+        Delivery::Listed => listed.to_vec(),
+        Delivery::AllChunkings { interrupts } => {
+            let mut out = vec![];
+            let nmask = if len == 0 { 1 } else { 1u64 << (len - 1) };
+            for mask in 0..nmask {
+                let base = if len == 0 { vec![] } else { chunks_of(len, mask) };
+                out.push(base.clone());
+                let calls = base.len() + 1;
+                if interrupts >= 1 {
+                    for a in 0..calls {
+                        out.push(with_interrupts(&base, &[a]));
+                    }
+                }
+                if interrupts >= 2 {
+                    for a in 0..calls {
+                        for b in a..calls {
+                            out.push(with_interrupts(&base, &[a, b]));
+                        }
+                    }
+                }
+            }
+            out
+        }
+        Delivery::TwoDeviations => {
+            // deviations: a cut (short read) after byte i, or an Interrupted before call j
+            let mut out = vec![vec![]];
+            for i in 1..len {
+                out.push(vec![Step::Give(i)]);
+                for j in i + 1..len {
+                    out.push(vec![Step::Give(i), Step::Give(j - i)]);
+                }
+                // one cut + one interrupt, before the first, second or EOF call
+                out.push(vec![Step::Interrupted, Step::Give(i)]);
+                out.push(vec![Step::Give(i), Step::Interrupted]);
+                out.push(vec![Step::Give(i), Step::Give(usize::MAX), Step::Interrupted]);
+            }
+            out.push(vec![Step::Interrupted]);
+            out.push(vec![Step::Interrupted, Step::Interrupted]);
+            out.push(vec![Step::Give(usize::MAX), Step::Interrupted]);
+            out.push(vec![Step::Give(usize::MAX), Step::Interrupted, Step::Interrupted]);
+            // byte-at-a-time delivery is not bounded-deviation but is named by the property
+            out.push(vec![Step::Give(1); len]);
+            out
+        }
+    }
+}
+
+fn extreme_tokens() -> Vec<(Ty, String)> {
+    let mut v = vec![];
+    macro_rules! ext {
+        ($t:ty, $ty:expr) => {
+            v.push(($ty, <$t>::MIN.to_string()));
+            v.push(($ty, <$t>::MAX.to_string()));
+        };
+    }
+    ext!(i8, Ty::I8);
+    ext!(u8, Ty::U8);
+    ext!(i16, Ty::I16);
+    ext!(u16, Ty::U16);
+    ext!(i32, Ty::I32);
+    ext!(u32, Ty::U32);
+    ext!(i64, Ty::I64);
+    ext!(u64, Ty::U64);
+    ext!(i128, Ty::I128);
+    ext!(u128, Ty::U128);
+    ext!(isize, Ty::Isize);
+    ext!(usize, Ty::Usize);
+    v
+}
+
+/// type choices tried for a token: the narrowest signed and unsigned integer types that hold it, the
+/// widest ones, String
+fn type_choices(tok: &str) -> Vec<Ty> {
+    let mut v = vec![];
+    let t = tok.as_bytes();
+    let (neg, digits) = if t[0] == b'-' { (true, &t[1..]) } else { (false, t) };
+    if !digits.is_empty() && digits.len() <= 38 && digits.iter().all(|d| d.is_ascii_digit()) {
+        let mag: u128 = std::str::from_utf8(digits).unwrap().parse().unwrap();
+        if let Some(s) = [Ty::I8, Ty::I16, Ty::I32, Ty::I64, Ty::I128].iter().find(|ty| ty.fits(neg, mag)) {
+            v.push(*s);
+        }
+        if let Some(u) = [Ty::U8, Ty::U16, Ty::U32, Ty::U64, Ty::U128].iter().find(|ty| ty.fits(neg, mag)) {
+            v.push(*u);
+        }
+        if Ty::Isize.fits(neg, mag) {
+            v.push(Ty::Isize);
+        }
+    }
+    v.push(Ty::Str);
+    v
+}
+
+fn build_short_cases(max_len: usize, quick: bool) -> Vec<Case> {
+    let toks: &[&str] = if quick { &["0", "7", "-1", "42", "a", "xy", "-"] } else { &["0", "7", "-1", "42", "-128", "255", "a", "xy", "-", "-0", "007"] };
+    let seps: &[&str] = if quick { &[" ", "\n", "\r\n", "\r", "  ", "\n\n"] } else { &[" ", "\n", "\r\n", "\r", "  ", "\t\n", "\n\n", "\r\n\r\n", "\r\r\n"] };
+    let leads: &[&str] = if quick { &["", " ", "\n"] } else { &["", " ", "\n", "\r\n"] };
+    let trails: &[&str] = if quick { &["", "\n", "\r\n", " ", "\r"] } else { &["", "\n", "\r\n", " ", "\r", "\n\n", "\n\r"] };
+    let mut inputs: Vec<(Vec<u8>, Vec<String>)> = vec![];
+    // whitespace-only and empty inputs
+    for s in ["", " ", "\n", "\r", "\r\n", "\n\n", "\r\n\n", " \n ", "\n\r", "\r\r"] {
+        inputs.push((s.as_bytes().to_vec(), vec![]));
+    }
+    for lead in leads {
+        for trail in trails {
+            for a in toks {
+                let s = format!("{lead}{a}{trail}");
+                if s.len() <= max_len {
+                    inputs.push((s.into_bytes(), vec![a.to_string()]));
+                }
+                for sep in seps {
+                    for b in toks {
+                        let s = format!("{lead}{a}{sep}{b}{trail}");
+                        if s.len() <= max_len {
+                            inputs.push((s.into_bytes(), vec![a.to_string(), b.to_string()]));
+                        }
+                        // three-token inputs: thorough only, on a reduced frame
+                        if quick || !lead.is_empty() || !matches!(*trail, "" | "\n" | "\r") {
+                            continue;
+                        }
+                        if !toks.iter().take(5).any(|t| t == a) || !toks.iter().take(5).any(|t| t == b) || !seps.iter().take(4).any(|x| x == sep) {
+                            continue;
+                        }
+                        for sep2 in seps.iter().take(4) {
+                            for c in toks.iter().take(5) {
+                                let s = format!("{lead}{a}{sep}{b}{sep2}{c}{trail}");
+                                if s.len() <= max_len {
+                                    inputs.push((s.into_bytes(), vec![a.to_string(), b.to_string(), c.to_string()]));
+                                }
+                            }
+                        }
+                    }
+                }
+            }
+        }
+    }
+    inputs.sort_by(|x, y| (x.0.len(), &x.0).cmp(&(y.0.len(), &y.0)));
+    inputs.dedup_by(|x, y| x.0 == y.0);
+
+    let mut cases = vec![];
+    for (input, tokens) in inputs {
+        let len = input.len();
+        let interrupts = if len <= if quick { 5 } else { 6 } { 2 } else if len <= if quick { 7 } else { 9 } { 1 } else { 0 };
+        let mode = Delivery::AllChunkings { interrupts };
+        let mut scripts: Vec<Vec<Op>> = vec![];
+        // lines
+        scripts.push(vec![Op::Lines, Op::Line, Op::Eof]);
+        scripts.push(vec![Op::Line, Op::Line, Op::Line, Op::Line, Op::Eof]);
+        scripts.push(vec![Op::Eof, Op::Line, Op::Eof, Op::Lines]);
+        // chars through the whole input
+        let nonws = input.iter().filter(|b| !is_ws(**b)).count();
+        scripts.push((0..nonws).map(|_| Op::Tok(Ty::Char)).chain([Op::Eof]).collect());
+        // typed token reads: every combination of the per-token type choices
+        if !tokens.is_empty() {
+            let choices: Vec<Vec<Ty>> = tokens.iter().map(|t| type_choices(t)).collect();
+            let mut combos: Vec<Vec<Ty>> = vec![vec![]];
+            for ch in &choices {
+                combos = combos.into_iter().flat_map(|c| ch.iter().map(move |t| { let mut d = c.clone(); d.push(*t); d })).collect();
+            }
+            for c in combos {
+                scripts.push(c.iter().map(|t| Op::Tok(*t)).chain([Op::Eof]).collect());
+                // is_eof interposed before every read
+                scripts.push(c.iter().flat_map(|t| [Op::Eof, Op::Tok(*t)]).chain([Op::Eof, Op::Eof]).collect());
+            }
+            // token then the rest as lines
+            scripts.push(vec![Op::Tok(Ty::Str), Op::Line, Op::Lines]);
+            scripts.push(vec![Op::Tok(Ty::Str), Op::Lines]);
+            scripts.push(vec![Op::Tok(Ty::Char), Op::Line, Op::Tok(Ty::Str)]);
+            scripts.push(vec![Op::Line, Op::Tok(Ty::Str), Op::Eof]);
+            scripts.push(vec![Op::Vec(Ty::Str, tokens.len()), Op::Eof]);
+            scripts.push(vec![Op::Vec(Ty::I64, tokens.len()), Op::Eof]);
+            if tokens.len() == 2 {
+                scripts.push(vec![Op::Tup(vec![Ty::I64, Ty::I64]), Op::Eof]);
+                scripts.push(vec![Op::Tup(vec![Ty::I32, Ty::Str]), Op::Line]);
+                scripts.push(vec![Op::Tup(vec![Ty::Str, Ty::U8]), Op::Eof]);
+            }
+            if tokens.len() == 3 {
+                scripts.push(vec![Op::Tup(vec![Ty::I64, Ty::I64, Ty::I64]), Op::Eof]);
+                scripts.push(vec![Op::Tup(vec![Ty::I8, Ty::U64, Ty::Str]), Op::Eof]);
+            }
+        }
+        scripts.sort();
+        scripts.dedup();
+        for script in scripts {
+            if reference(&input, &script).is_some() {
+                cases.push(Case { input: input.clone(), script, mode });
+            }
+        }
+    }
+    cases
+}
+
+fn build_long_token_cases() -> Vec<Case> {
+    let mut cases = vec![];
+    // every extreme value of every integer type, framed, read with its own type (and the wider ones)
+    for (ty, tok) in extreme_tokens() {
+        for (lead, trail) in [("", ""), (" ", "\n"), ("\n", "\r\n"), ("", " x")] {
+            let input = format!("{lead}{tok}{trail}").into_bytes();
+            let mut script = vec![Op::Tok(ty), Op::Eof];
+            if trail == " x" {
+                script = vec![Op::Tok(ty), Op::Tok(Ty::Char), Op::Eof];
+            }
+            if reference(&input, &script).is_some() {
+                cases.push(Case { input: input.clone(), script, mode: Delivery::TwoDeviations });
+            }
+            let s2 = vec![Op::Tok(Ty::Str), Op::Line, Op::Eof];
+            if lead.is_empty() && trail == "" {
+                cases.push(Case { input, script: s2, mode: Delivery::TwoDeviations });
+            }
+        }
+    }
+    // tuples of every wired arity
+    let sample = |t: Ty| -> &'static str {
+        match t {
+            Ty::I8 => "-128",
+            Ty::U8 => "255",
+            Ty::I16 => "-32768",
+            Ty::U16 => "65535",
+            Ty::I32 => "-2147483648",
+            Ty::U32 => "4294967295",
+            Ty::I64 => "-9223372036854775808",
+            Ty::U64 => "18446744073709551615",
+            Ty::Str => "word",
+            _ => "1",
+        }
+    };
+    for shape in TUPLE_SHAPES {
+        for sep in [" ", "\n", "\r\n", " \r\n "] {
+            let input = shape.iter().map(|t| sample(*t)).collect::<Vec<_>>().join(sep).into_bytes();
+            let script = vec![Op::Tup(shape.to_vec()), Op::Eof];
+            if reference(&input, &script).is_some() {
+                cases.push(Case { input, script, mode: Delivery::TwoDeviations });
+            }
+        }
+    }
+    // vectors and multi-line text
+    let input = b"3\n10 -20 30\r\nsome words here\r\n\r\nlast line".to_vec();
+    cases.push(Case { input: input.clone(), script: vec![Op::Tok(Ty::Usize), Op::Vec(Ty::I32, 3), Op::Line, Op::Line, Op::Lines, Op::Eof], mode: Delivery::TwoDeviations });
+    cases.push(Case { input, script: vec![Op::Lines], mode: Delivery::TwoDeviations });
+    cases
+}
+
+/// Inputs as long as the reader's internal buffer: the interesting bytes are placed at every offset
+/// around the position where the default delivery ends the first buffer-full.
+fn build_boundary_cases(b: usize, quick: bool) -> (Vec<Case>, Vec<Vec<Step>>) {
+    let mut cases = vec![];
+    let specials: Vec<(&str, Vec<Op>)> = vec![
+        ("-9223372036854775808 7", vec![Op::Tok(Ty::I64), Op::Tok(Ty::U8), Op::Eof]),
+        ("340282366920938463463374607431768211455\n", vec![Op::Tok(Ty::U128), Op::Eof]),
+        ("-170141183460469231731687303715884105728", vec![Op::Tok(Ty::I128), Op::Eof]),
+        ("-1 -2", vec![Op::Tup(vec![Ty::I64, Ty::I64]), Op::Eof]),
+        ("word\r\nnext\r\n\r\nz", vec![Op::Tok(Ty::Str), Op::Line, Op::Line, Op::Line, Op::Line, Op::Line]),
+        ("ab\r\ncd\r", vec![Op::Line, Op::Line, Op::Line, Op::Line]),
+        ("   \r\n  x", vec![Op::Eof, Op::Tok(Ty::Char), Op::Eof]),
+        ("  \n \r\n", vec![Op::Eof, Op::Line]),
+        ("q", vec![Op::Tok(Ty::Char), Op::Eof, Op::Line]),
+    ];
+    let step = if quick { 1 } else { 1 };
+    for (sp, tail_script) in &specials {
+        let span = sp.len() + 2;
+        for delta in (0..=span).step_by(step) {
+            // filler token of length b - delta - 1, then one separator, then the special text: the special
+            // text starts at offset b - delta
+            if b < delta + 2 {
+                continue;
+            }
+            for sep in [b' ', b'\n'] {
+                let mut input = vec![b'a'; b - delta - 1];
+                input.push(sep);
+                input.extend_from_slice(sp.as_bytes());
+                let mut script = vec![Op::Tok(Ty::Str)];
+                if sep == b'\n' && matches!(tail_script[0], Op::Line) {
+                    // the first read_line finishes the filler's line
+                    script.push(Op::Line);
+                }
+                script.extend(tail_script.iter().cloned());
+                if reference(&input, &script).is_some() {
+                    cases.push(Case { input, script, mode: Delivery::Listed });
+                }
+            }
+        }
+    }
+    // input of exactly b, b-1, b+1 bytes: end of input at the buffer boundary
+    for l in [b - 1, b, b + 1, 2 * b, 2 * b + 1] {
+        let mut input = vec![b'7'; l];
+        cases.push(Case { input: input.clone(), script: vec![Op::Tok(Ty::Str), Op::Eof, Op::Line], mode: Delivery::Listed });
+        *input.last_mut().unwrap() = b'\r';
+        cases.push(Case { input: input.clone(), script: vec![Op::Line, Op::Line, Op::Eof], mode: Delivery::Listed });
+        *input.last_mut().unwrap() = b'\n';
+        cases.push(Case { input, script: vec![Op::Line, Op::Line, Op::Eof], mode: Delivery::Listed });
+    }
+    // plans: default; one short read that moves the boundary by 1..3 bytes; an Interrupted before the
+    // first / second / third call; both
+    let mut plans: Vec<Vec<Step>> = vec![vec![]];
+    for k in [1usize, 2, 3, 7] {
+        plans.push(vec![Step::Give(b - k)]);
+        plans.push(vec![Step::Give(k)]);
+        plans.push(vec![Step::Give(b - k), Step::Interrupted]);
+        plans.push(vec![Step::Give(b - k), Step::Give(k)]);
+    }
+    plans.push(vec![Step::Interrupted]);
+    plans.push(vec![Step::Give(usize::MAX), Step::Interrupted]);
+    plans.push(vec![Step::Give(usize::MAX), Step::Give(usize::MAX), Step::Interrupted]);
+    plans.push(vec![Step::Give(usize::MAX), Step::Interrupted, Step::Interrupted]);
+    (cases, plans)
+}
+
+// ---------------------------------------------------------------------------------------------
+
+#[derive(Clone)]
+struct Fail {
+    family: &'static str,
+    index: usize,
+    input: Vec<u8>,
+    script: Vec<Op>,
+    plan: Vec<Step>,
+    msg: String,
+}
+
+fn has_lone_cr(input: &[u8]) -> bool {
+    input.iter().enumerate().any(|(i, &c)| c == b'\r' && input.get(i + 1) != Some(&b'\n'))
+}
+
+#[derive(Default)]
+struct Tot {
+    execs: u64,
+    cases: u64,
+    plans_distinct_lens: u64,
+    interrupted_execs: u64,
+    straddle: u64,
+    outcomes: std::collections::HashSet<u64>,
+    fails: Vec<Fail>,
+}
+
+fn judge(case: &Case, idx: usize, plans: &[Vec<Step>]) -> Tot {
+    let mut t = Tot::default();
+    let expect = reference(&case.input, &case.script).unwrap();
+    t.cases = 1;
+    t.outcomes.insert(fnv(format!("{:?}", expect).as_bytes()));
+    let mut first: Option<Vec<String>> = None;
+    let mut seen: [bool; 3] = [false; 3];
+    for plan in plans {
+        let ex = run_real(&case.input, plan, &case.script);
+        t.execs += 1;
+        let has_int = plan.contains(&Step::Interrupted);
+        if has_int {
+            t.interrupted_execs += 1;
+        }
+        if plan.iter().any(|s| matches!(s, Step::Give(k) if *k < case.input.len())) {
+            t.straddle += 1;
+        }
+        let mut fail = |family: &'static str, k: usize, msg: String, t: &mut Tot| {
+            if !seen[k] {
+                seen[k] = true;
+                t.fails.push(Fail { family, index: idx, input: case.input.clone(), script: case.script.clone(), plan: plan.clone(), msg });
+            }
+        };
+        match &ex.out {
+            Err(p) => {
+                if has_int {
+                    fail("interrupted_not_retried", 0, format!("the reader panicked ({p}) on a delivery containing ErrorKind::Interrupted, which the Read contract says to retry"), &mut t);
+                } else {
+                    fail("panic_on_valid_script", 1, format!("the reader panicked: {p}"), &mut t);
+                }
+            }
+            Ok(v) => {
+                if first.is_none() {
+                    first = Some(v.clone());
+                }
+                if *v != expect {
+                    // is it the delivery, or the bytes?
+                    let single = run_real(&case.input, &[], &case.script);
+                    if single.out.as_ref().ok() == Some(&expect) || single.out.as_ref().ok() != Some(v) {
+                        fail("delivery_dependence", 2, format!("this delivery returned {:?}; the reference parser (and the result the property demands for every delivery) is {:?}; single-chunk delivery returned {:?}", v, expect, single.out), &mut t);
+                    } else if !has_lone_cr(&case.input) {
+                        fail("reference_mismatch", 2, format!("every delivery returns {:?}, the reference parser gives {:?}", v, expect), &mut t);
+                    }
+                }
+            }
+        }
+    }
+    t
+}
+
+fn describe(input: &[u8]) -> String {
+    if input.len() <= 64 {
+        format!("{:?}", String::from_utf8_lossy(input))
+    } else {
+        let head = String::from_utf8_lossy(&input[..8]).into_owned();
+        let tail = String::from_utf8_lossy(&input[input.len() - 48..]).into_owned();
+        format!("{:?}…({} bytes)…{:?}", head, input.len(), tail)
+    }
+}
+
+fn compress_input(input: &[u8]) -> Value {
+    // run-length form so that 64 KiB inputs stay small in replay files
+    let mut runs: Vec<Value> = vec![];
+    let mut i = 0;
+    while i < input.len() {
+        let mut j = i;
+        while j < input.len() && input[j] == input[i] {
+            j += 1;
+        }
+        runs.push(json!([input[i], j - i]));
+        i = j;
+    }
+    Value::Array(runs)
+}
+
+fn expand_input(v: &Value) -> Vec<u8> {
+    let mut out = vec![];
+    for r in v.as_array().unwrap() {
+        let b = r[0].as_u64().unwrap() as u8;
+        let n = r[1].as_u64().unwrap() as usize;
+        out.extend(std::iter::repeat(b).take(n));
+    }
+    out
+}
+
+fn confirm(v: &Value) -> Result<(), String> {
+    let input = expand_input(&v["input_rle"]);
+    let script: Vec<Op> = v["script"].as_array().unwrap().iter().map(op_from_json).collect();
+    let plan = plan_from_json(&v["plan"]);
+    let expect = match reference(&input, &script) {
+        Some(e) => e,
+        None => return Ok(()),
+    };
+    let ex = run_real(&input, &plan, &script);
+    match ex.out {
+        Err(p) => Err(format!("the reader panicked: {p}")),
+        Ok(got) if got != expect => Err(format!("returned {:?}, the bytes determine {:?}", got, expect)),
+        Ok(_) => Ok(()),
+    }
+}
+
+fn main() {
+    let args = Args::parse();
+    quiet_panics();
+    if args.replay.is_some() {
+        Run::replay_main(&args, &confirm);
+    }
+    let mut run = Run::new(&args, "reader", "fault_enumeration");
+    let quick = args.tier == Tier::Quick;
+
+    // observe the buffer size: the length of the slice offered to the first read call
+    let probe = run_real(b"1", &[], &[Op::Tok(Ty::I32)]);
+    let b = probe.first_buf;
+    if b < 64 || probe.out.is_err() {
+        run.machinery_failure(&format!("could not observe the reader's buffer size (first read was offered {} bytes, result {:?})", b, probe.out));
+    }
+    run.cov("observed_buffer_size", b as u64);
+
+    let short = build_short_cases(if quick { 10 } else { 13 }, quick);
+    let long = build_long_token_cases();
+    let (boundary, boundary_plans) = build_boundary_cases(b, quick);
+    let n_short = short.len();
+    let n_long = long.len();
+    let n_boundary = boundary.len();
+    let all: Vec<Case> = short.into_iter().chain(long).chain(boundary).collect();
+
+    let tot = all
+        .par_iter()
+        .enumerate()
+        .map(|(i, c)| {
+            let plans = plans_for(c, &boundary_plans);
+            judge(c, i, &plans)
+        })
+        .reduce(Tot::default, |mut a, b| {
+            a.execs += b.execs;
+            a.cases += b.cases;
+            a.interrupted_execs += b.interrupted_execs;
+            a.straddle += b.straddle;
+            a.outcomes.extend(b.outcomes);
+            a.fails.extend(b.fails);
+            a.plans_distinct_lens += b.plans_distinct_lens;
+            a
+        });
+
+    // one report per family: the first failing case in enumeration order (shortest input first)
+    let mut fails = tot.fails.clone();
+    fails.sort_by_key(|f| f.index);
+    let mut reported: Vec<&'static str> = vec![];
+    let mut fam_counts = std::collections::BTreeMap::new();
+    for f in &fails {
+        *fam_counts.entry(f.family).or_insert(0u64) += 1;
+    }
+    for f in &fails {
+        if reported.contains(&f.family) {
+            continue;
+        }
+        reported.push(f.family);
+        let script_json: Vec<Value> = f.script.iter().map(op_to_json).collect();
+        let sig = format!("{}:input={}:script={}:plan={}", f.family, describe(&f.input), serde_json::to_string(&script_json).unwrap(), serde_json::to_string(&plan_to_json(&f.plan)).unwrap());
+        let summary = format!("input {} script {} delivery {}: {} ({} (input, script) cases fail in this family)", describe(&f.input), serde_json::to_string(&script_json).unwrap(), serde_json::to_string(&plan_to_json(&f.plan)).unwrap(), f.msg, fam_counts[f.family]);
+        run.violation(Violation::new(sig, summary, json!({"input_rle": compress_input(&f.input), "script": script_json, "plan": plan_to_json(&f.plan)})));
+    }
+
+    run.cov("evaluations", tot.execs);
+    run.cov("distinct_nontrivial", tot.cases);
+    run.cov("cases_short_all_chunkings", n_short as u64);
+    run.cov("cases_long_two_deviations", n_long as u64);
+    run.cov("cases_buffer_boundary", n_boundary as u64);
+    run.cov("executions_with_interrupted", tot.interrupted_execs);
+    run.cov("executions_with_short_read", tot.straddle);
+    run.cov("distinct_expected_outcomes", tot.outcomes.len() as u64);
+    run.cov("failing_cases_per_family", json!(fam_counts));
+    run.cov("exhaustive", true);
+    run.cov("rule", "evaluations = executions of the real Reader (one per (input, script, delivery plan)); distinct_nontrivial = distinct (input, script) pairs accepted by the reference parser as valid scripts. Short inputs (<= 10 bytes quick / 13 thorough, built from tokens x separators incl. CRLF, lone CR, blank lines): ALL 2^(L-1) chunkings, plus every placement of <= 2 Interrupted for L <= 5 (quick) / 6 and <= 1 for L <= 7 / 9; extreme values of all 12 integer types, tuples of arity 2..8 and multi-line text: every placement of <= 2 deviations (short read / Interrupted) plus byte-at-a-time; inputs as long as the observed internal buffer with the interesting bytes at every offset around the boundary under 21 listed plans");
+    for c in all.iter().step_by((all.len() / 6).max(1)).take(6) {
+        run.sample(json!({"input": describe(&c.input), "script": c.script.iter().map(op_to_json).collect::<Vec<_>>(), "expected": reference(&c.input, &c.script)}));
+    }
+    run.assume("reference parser: tokens are maximal runs of non-ASCII-whitespace; a line ends at LF or CRLF (terminator dropped), a CR not followed by LF is part of the line; the reference_mismatch family is not judged on inputs with a lone CR (the property does not define them), delivery_dependence is judged on all inputs");
+    run.assume("scripts the reference parser rejects (a token that is not there / does not fit the type) are outside the property and are not executed");
+    if tot.execs < 100_000 || tot.interrupted_execs < 1000 || tot.straddle < 1000 || n_boundary < 50 {
+        run.machinery_failure("exploration implausibly small");
+    }
+    run.finish(&confirm)
+}
